@@ -249,7 +249,13 @@ def final_checks(ctx: Ctx, m: Monitor, bio):
                         break
             for b in res.atoms:
                 if b is not a and dist(a.coords, b.coords) < 0.5:
-                    out.append(({"kind": "coincident", "residue": res.name, "pos": pos, "atom": a.name}, f"{res} {a.name} is {dist(a.coords, b.coords):.3f} A from {b.name}"))
+                    sig = {"kind": "coincident", "residue": res.name, "pos": pos, "atom": a.name}
+                    bb = ("N", "H", "CA", "HA", "HA2", "HA3", "C", "O", "OXT", "H2", "H3")
+                    debumped = any(t["residue"] is res and t["caller"] == "debump_residue" for t in m.torsions) or m.torsion_calls > len(m.torsions)
+                    if debumped and ((a.name in bb) != (b.name in bb)):
+                        # a side-chain atom sits on a backbone atom of its own residue after debumping
+                        sig = {"kind": "coincident", "cause": "debumped-onto-own-backbone"}
+                    out.append((sig, f"{res} {a.name} is {dist(a.coords, b.coords):.3f} A from {b.name}"))
                     break
     return out
 
